@@ -29,7 +29,6 @@ Oracle = classification table, scoped to the property statement:
       stack keeps receiving afterwards; other -> propagates.
 """
 import errno
-import ssl
 
 from vp.core.acc import Acc
 from vp.net import doubles as D
